@@ -149,6 +149,21 @@ def gen_cases(rng, tier):
                     c.append("")
                 c[12] = mode
                 cases.append(c)
+    # ... and responses that arrived IN TIME are handed over whenever the caller comes to look, also after the 64*T1 have passed: a timeout
+    # is what is reported when no response has arrived (judged on the sequence of results, the instants are the caller's)
+    k3 = 0
+    for kind in ("ni", "inv"):
+        for rel in (0, 1):
+            for late, arrs in ((33000, [(1000, 200, "a")]), (33000, [(1000, 100, "-"), (31000, 200, "a")] if kind == "ni" else [(1000, 180, "a"), (31000, 200, "a")]), (40000, [(31900, 486, "a")]),
+                               (33000, [(900, 100, "-")] if kind == "ni" else [(900, 183, "a")])):
+                if rel == 0:
+                    continue        # over an unreliable transport a caller that does not wait does not retransmit either: the cooperative caller is assumed there
+                c = _case("lq%d" % k3, kind, rel, arrs); k3 += 1
+                while len(c) < 13:
+                    c.append("")
+                c[12] = "late:%d" % late
+                c[7] = ""
+                cases.append(c)
     # a caller that waits with receive_final(): however many provisional responses come first (a peer answers every copy of the request
     # with its 100 Trying, or sends 100 and then 183), the one final response is what it gets
     k = 0
@@ -194,6 +209,12 @@ def model_case(case, impl):
             p = a.split(":")
             arrs.append("%d:%s:%s" % (max(0, int(p[0]) - l), p[1], p[2]))
     return case[:4] + [",".join(arrs)] + case[5:]
+
+
+def accepts(case, impl, model):
+    if case[0].startswith("lq"):
+        return True          # the instants are the caller's: decided by the oracle on the sequence of results
+    return impl == model
 
 
 def normalize_impl(case, s):
@@ -250,6 +271,17 @@ def oracle(case, impl):
     if "PANIC" in impl:
         return ["panic: " + impl[:300]]
     if case[0].startswith("mix"):
+        return []
+    if case[0].startswith("lq"):
+        kinds = [("P" if _norm_code(int(a.split(":")[1])) < 200 else ("S" if _norm_code(int(a.split(":")[1])) < 300 else "F")) for a in case[4].split(",") if a]
+        got = re.findall(r"\b([GTE])@\d+(?::(\w))?", impl.split("\t")[0])
+        seq = [g[1] if g[0] == "G" else g[0] for g in got]
+        want = kinds[:]
+        if case[2] == "ni" and kinds and kinds[-1] == "P":
+            want = kinds + ["T"]          # only provisional responses came: Timer F is reported after them
+        if seq[:len(want)] != want:
+            return ["responses %s arrived before 64*T1 had passed and the caller looked at %s ms: it was handed %r, expected %r (a timeout is reported when no response has arrived)" % (
+                case[4], case[12].split(":")[1], seq, want)]
         return []
     impl = _shift(case, impl)
     kind, rel, arrs, horizon = _parse(case)
